@@ -5,6 +5,7 @@ import ScyllaVerif.Model.Plan
 import ScyllaVerif.Model.Sharding
 import ScyllaVerif.Model.Routing
 import ScyllaVerif.Model.PlanRefresh
+import ScyllaVerif.Model.C05TabletHistory
 import ScyllaVerif.Drive.Topology
 /-! Line-protocol driver for C05 (default load-balancing policy, `Plan`).
 
@@ -401,6 +402,61 @@ def tabletV (reps : List SRep) : Option Nat → List SRep := fun dc =>
   | none => reps
   | some d => reps.filter (fun r => r.1.dc == some d)
 
+/-- `id@shard,…` of a learnt tablet: raw `(host id, shard)` pairs, the host ids need not be known. -/
+def parseRawReps (s : String) : Option (List (Nat × Nat)) :=
+  match (s.splitOn ",").mapM parseObs with
+  | none => none
+  | some l => l.mapM (fun o => match o.2 with
+    | some sh => some (o.1, sh)
+    | none => none)
+
+def parseRawTabletOne (s : String) : Option (Int × Int × List (Nat × Nat)) :=
+  match s.splitOn ":" with
+  | [r] => (parseRawReps r).map (fun reps => (-9223372036854775807, 9223372036854775807, reps))
+  | [f, l, r] =>
+    match f.toInt?, l.toInt?, parseRawReps r with
+    | some f, some l, some reps =>
+      if -9223372036854775808 < f && f ≤ l && l ≤ 9223372036854775807 then some (f, l, reps) else none
+    | _, _, _ => none
+  | _ => none
+
+def rawSorted : List (Int × Int × List (Nat × Nat)) → Bool
+  | a :: b :: rest => decide (a.2.1 < b.1) && rawSorted (b :: rest)
+  | _ => true
+
+def parseRawTablets (s : String) : Option (List (Int × Int × List (Nat × Nat))) :=
+  if s == "-" then some []
+  else match (s.splitOn "|").mapM parseRawTabletOne with
+    | some ts => if rawSorted ts then some ts else none
+    | none => none
+
+/-- The steps of a `thplan` history: `N <topology>` first, then `F` / `G` steps; every peer carries exactly one of the
+flags `a` (accepted by the host filter) / `d` (rejected), no sharders.  Address of a peer = its position. -/
+def parseTHSteps : List String → Bool → Option (List (List (Peer × String)))
+  | [], _ => some []
+  | mode :: topo :: rest, first =>
+    if (first && mode != "N") || (!first && mode != "F" && mode != "G") then none else
+    match parseTopologyEx topo with
+    | none => none
+    | some tx =>
+      if tx.any (fun p => p.2.contains 's' || (p.2.contains 'a' == p.2.contains 'd')) then none else
+      (parseTHSteps rest false).map (tx :: ·)
+  | _, _ => none
+
+def thPeers (tx : List (Peer × String)) : List ScyllaVerif.TabletsRefresh.Peer :=
+  (tx.zipIdx).map (fun (p, i) => ScyllaVerif.Routing.toPeer ((p.1.node, i), p.2.contains 'a'))
+
+/-- `thplan`: the model's state after the history - `ClusterState::new`, the tablets learnt one by one, the refreshes. -/
+def thState (nks : Nat) (steps : List (List (Peer × String))) (tabs : List (Int × Int × List (Nat × Nat))) :
+    ScyllaVerif.TabletsRefresh.CState :=
+  let kss := ScyllaVerif.C05TabletHistory.kssOf nks
+  match steps with
+  | [] => ScyllaVerif.TabletsRefresh.CState.init
+  | s0 :: rest =>
+    ScyllaVerif.C05TabletHistory.hrun kss
+      (.refresh (thPeers s0) :: tabs.map (fun t => .learn ("k0", "t") t.1 t.2.1 t.2.2) ++
+        rest.map (fun s => .refresh (thPeers s)))
+
 /-- The state after a history `(<mode> <topology>)*` through C04's model of `calculate_new_topology`
 (`Model/Refresh.lean`): mode `n` = `ClusterState::new`, `r` / `t` = full / topology-only refresh with a rejecting host
 filter (the hooks clear `is_enabled` first), `R` / `T` = with an accepting one; after every step the hooks impose
@@ -505,6 +561,42 @@ def run (case impl : String) : String :=
           ((allNodes cl).length + reps.length + 1) nS impl
     | _, _, _, _, _ => "bad-case"
   | head :: nSteps :: rest =>
+    if head == "thplan" || head.startsWith "thplan." then
+      match nSteps.toNat? with
+      | none => "bad-case"
+      | some n =>
+        if n == 0 || n > 64 || rest.length != 2 * n + 5 then "bad-case" else
+        match rest.drop (2 * n) with
+        | [kss, cfg, req, tablet, nSamples] =>
+          match parseStrategies kss, parseConfig cfg, parseRequest req, nSamples.toNat?, parseRawTablets tablet,
+            parseTHSteps (rest.take (2 * n)) true with
+          | some ks, some (cfg, shuffle), some rq, some nS, some tabs, some steps =>
+            match steps.getLast? with
+            | none => "bad-case"
+            | some lastPs =>
+              let knownIn := fun (tx : List (Peer × String)) (id : Nat) => tx.any (fun p => p.1.node.id == id)
+              if nS == 0 || ks.isEmpty then "bad-case" else
+              if steps.length == 1 && tabs.any (fun t => t.2.2.any (fun r => !knownIn lastPs r.1)) then "bad-case" else
+              let st := thState ks.length steps tabs
+              -- no tablet ever holds a Node object a refresh has replaced (Props.C05Tablets.thplan_no_stale_object)
+              if !(ScyllaVerif.C05TabletHistory.staleReps st).isEmpty then "MODEL-STALE-OBJECT" else
+              -- the known nodes carry the verdicts / datacenters of the last metadata (Props.C05Tablets.known_of_last_metadata)
+              if st.known.map (fun e => (e.1, e.2.enabled, e.2.node.dc)) !=
+                  (thPeers lastPs).map (fun p => (p.hostId, p.accepted, p.dc)) then "MODEL-INCONSISTENT known/last" else
+              let cl := mkCluster lastPs ks rq.token
+              if rq.table != some 0 then
+                check lastPs (PolicyM.simple (pick cl cfg rq) (fallback cl cfg rq) (fallbackGroups cl cfg rq)) rq.routeAsLwt shuffle
+                  ((allNodes cl).length + 1) nS impl
+              else
+              let V := ScyllaVerif.C05TabletHistory.viewOf st ("k0", "t") (lastPs.map (·.1.node)) rq.token
+              let groups : RhoFb → List (List Target) := fun ρ =>
+                (if tokenAware cl cfg rq then replicaGroupsT cl cfg rq V ρ else [[], [], []]) ++
+                  (fallbackGroups cl cfg (rqNoToken rq) ρ).drop 3
+              check lastPs (PolicyM.simple (pickT cl cfg rq V) (fallbackT cl cfg rq V) (groups)) rq.routeAsLwt shuffle
+                ((allNodes cl).length + (V none).length + 1) nS impl
+          | _, _, _, _, _, _ => "bad-case"
+        | _ => "bad-case"
+    else
     if !(head == "hplan" || head.startsWith "hplan.") then "bad-case" else
     match nSteps.toNat? with
     | none => "bad-case"
